@@ -43,9 +43,22 @@
    every fuel for which the fuelled semantics [ssem] — which Sem.eval computes
    with the same fuel, [C01_sem_statement] — gives a statement a meaning, the
    compiled code run by the VM model ends with that value or error class and
-   those globals, in REPL mode and in file mode, statement after statement
-   ([C01_statement_sessions_partial]).  Missing for the full statement:
-   calls, generators, locals and closures, output. *)
+   that world — global bindings, output written, input left —, in REPL mode
+   and in file mode, statement after statement
+   ([C01_statement_sessions_partial]).  Calls, as statements and as right
+   sides of assignments, with pure arguments (CallVM.v: the CALL/RET
+   protocol): of the built-ins write, toa, aton, read, and of user functions
+   with any number of parameters whose body is a pure expression of the
+   parameters and the globals (LExprSem.v, LExprCorrect.v: expressions with
+   local variables, in every context, inside an activation); the wrong
+   number of arguments is the arity error.  The premise that the functions'
+   code lies where the table Bf says ([bcode]) is discharged by computation
+   through sound checkers (StmtCheck.v) for the machines of the examples.
+   The two sides bind function names to different representations; worlds
+   that agree elsewhere give the same results ([C01_statement_sem_vs_vm]).
+   Missing for the full statement: functions whose bodies are statements,
+   recursion, closures, definitions as statements, calls nested in
+   expressions, generators. *)
 Require Calc.LExprCorrect.
 Require Import Lia.
 Require Import Calc.Base Calc.Bytecode Calc.Value Calc.FloatText Calc.Ast Calc.Resolve Calc.Compile
